@@ -136,7 +136,7 @@ public:
 	  {
 	    if (begin >= 0)
 	      {
-		if (!write_span(drive, dest_dir, sector_count(begin), sec))
+		if (!write_span(ctx, drive, dest_dir, sector_count(begin), sec))
 		  return false;
 		++count;
 	      }
@@ -155,7 +155,8 @@ public:
   }
 
 private:
-  bool write_span(DFS::AbstractDrive *drive,
+  bool write_span(const DFS::DFSContext& ctx,
+		  DFS::AbstractDrive *drive,
 		  const std::string& dest_dir,
 		  sector_count_type start_sector,
 		  // end_sector is the first sector not included.
@@ -163,6 +164,12 @@ private:
   {
     assert(start_sector < end_sector);
     const std::string file_name(make_name(dest_dir, start_sector));
+    if (DFS::is_image_file(ctx, file_name))
+      {
+	std::cerr << "not writing " << file_name
+		  << " because that would overwrite an image file\n";
+	return false;
+      }
     std::ofstream output(file_name, std::ofstream::binary|std::ofstream::trunc);
     if (!output)
       {
